@@ -34,6 +34,8 @@ type Ctx struct {
 	fragLoopsSeen           map[*ssa.BasicBlock]bool // fragment loops whose entry edge the BOUNDS run reached (C10, C14)
 	// functions in which possibly-wrapping narrow arithmetic is reported (rule BOUNDS.WRAP)
 	wrapScope map[string]bool
+	// wrapShiftOnly: functions of wrapScope in which only left shifts are reported
+	wrapShiftOnly map[string]bool
 }
 
 var Registry = map[string]func(*Ctx){}
